@@ -41,40 +41,87 @@ def clean(v):
     return v
 
 
-def build(driver):
+FLAGS = ['-std=c++17', '-O1', '-g', '-w', '-fsanitize=address,undefined', '-fno-sanitize-recover=undefined',
+         '-fno-access-control', '-I', REPO, '-I', REPO + '/libcds/includes', '-DLIBCSD_VERIF_REPLAY']
+
+
+def build_lib():
+    """all of /repo's library sources, ASan+UBSan, once per working-tree content"""
+    d = os.path.join(ROOT, '.work', 'replay', 'lib-' + L.repo_hash()[:16])
+    lib = os.path.join(d, 'libcsd_asan.a')
+    if os.path.exists(lib):
+        return lib, None
+    os.makedirs(d, exist_ok=True)
+    srcs = all_sources()
+    objs = []
+    running = []
+
+    def reap(block_all=False):
+        while running and (block_all or len(running) >= 16):
+            s_, p = running.pop(0)
+            out = p.communicate()[0]
+            if p.returncode != 0:
+                return 'compile of %s failed: %s' % (s_, out[-1500:])
+        return None
+    for s in srcs:
+        o = os.path.join(d, re.sub(r'[^A-Za-z0-9]', '_', s) + '.o')
+        objs.append(o)
+        running.append((s, subprocess.Popen(['g++'] + FLAGS + ['-c', os.path.join(REPO, s), '-o', o],
+                                            stdout=subprocess.PIPE, stderr=subprocess.STDOUT, text=True)))
+        err = reap()
+        if err:
+            return None, err
+    err = reap(True)
+    if err:
+        return None, err
+    r = subprocess.run(['ar', 'rcs', lib + '.tmp'] + objs, capture_output=True, text=True)
+    if r.returncode != 0:
+        return None, 'ar failed: ' + r.stderr[-500:]
+    os.replace(lib + '.tmp', lib)
+    for o in objs:
+        os.remove(o)
+    return lib, None
+
+
+def build(driver, defs=None):
     src = os.path.join(HERE, driver + '.cpp')
     if not os.path.exists(src):
         return None, 'driver %s.cpp missing' % driver
-    first = open(src).readline()
-    m = re.match(r'//\s*SOURCES:\s*(.*)$', first)
-    srcs = m.group(1).split() if m else []
-    if srcs == ['ALL']:
-        srcs = all_sources()
-    key = hashlib.sha1((L.repo_hash() + open(src).read()).encode()).hexdigest()[:16]
+    lib, err = build_lib()
+    if not lib:
+        return None, err
+    head = open(src).read().split('\n')[:6]
+    extra, extradefs = [], []
+    dmap = {}
+    for d in defs or []:
+        if d.startswith('-D') and '=' in d:
+            k, v = d[2:].split('=', 1)
+            dmap[k] = v
+    for ln in head:
+        m = re.match(r'//\s*EXTRA:\s*(.*)$', ln)
+        if m:
+            extra = m.group(1).split()
+        m = re.match(r'//\s*EXTRADEFS:\s*(.*)$', ln)
+        if m:
+            t = m.group(1)
+            for k, v in dmap.items():
+                t = t.replace('{%s}' % k, v)
+            if '{' in t:
+                return None, 'replay driver needs a definition that the obligation does not set: ' + t
+            extradefs = t.split()
+    incl = ''
+    for ln in open(src).read().split('\n'):
+        m = re.match(r'#include "(\w+\.cpp)"', ln)
+        if m:
+            incl += open(os.path.join(HERE, m.group(1))).read()
+    key = hashlib.sha1((L.repo_hash() + open(src).read() + incl + open(os.path.join(HERE, 'args.h')).read() + ' '.join(extradefs)).encode()).hexdigest()[:16]
     d = os.path.join(ROOT, '.work', 'replay', driver + '-' + key)
     exe = os.path.join(d, driver)
     if os.path.exists(exe):
         return exe, None
     os.makedirs(d, exist_ok=True)
-    objs = []
-    flags = ['-std=c++17', '-O1', '-g', '-w', '-fsanitize=address,undefined', '-fno-sanitize-recover=undefined',
-             '-fno-access-control', '-I', REPO, '-I', REPO + '/libcds/includes', '-DLIBCSD_VERIF_REPLAY']
-    procs = []
-    for s in srcs:
-        o = os.path.join(d, re.sub(r'[^A-Za-z0-9]', '_', s) + '.o')
-        objs.append(o)
-        procs.append((s, subprocess.Popen(['g++'] + flags + ['-c', os.path.join(REPO, s), '-o', o],
-                                          stdout=subprocess.PIPE, stderr=subprocess.STDOUT, text=True)))
-        if len(procs) >= 16:
-            s_, p = procs.pop(0)
-            out = p.communicate()[0]
-            if p.returncode != 0:
-                return None, 'compile of %s failed: %s' % (s_, out[-1500:])
-    for s_, p in procs:
-        out = p.communicate()[0]
-        if p.returncode != 0:
-            return None, 'compile of %s failed: %s' % (s_, out[-1500:])
-    r = subprocess.run(['g++'] + flags + [src] + objs + ['-o', exe, '-lpthread'], capture_output=True, text=True)
+    r = subprocess.run(['g++'] + FLAGS + extradefs + ['-I', HERE, src] + [os.path.join(REPO, x) for x in extra] + [lib, '-o', exe, '-lpthread'],
+                       capture_output=True, text=True)
     if r.returncode != 0:
         return None, 'link failed: ' + (r.stderr or r.stdout)[-1500:]
     return exe, None
@@ -95,7 +142,7 @@ def all_sources():
 
 
 def run(driver, res, prop):
-    exe, err = build(driver)
+    exe, err = build(driver, res.get('defs'))
     if not exe:
         return 'none', err
     args = ['ob=' + res['ob'], 'instance=' + res['instance']]
@@ -117,4 +164,4 @@ def run(driver, res, prop):
         return 'not-reproduced', 'native run satisfies the property; args: %s; output: %s' % (' '.join(args), out[-400:])
     if r.returncode == 2:
         return 'none', 'replay driver could not use the counterexample: ' + out[-600:]
-    return 'reproduced', 'native run (ASan+UBSan build of /repo sources) fails: %s | args: %s' % (out.strip()[-1500:], ' '.join(args))
+    return 'reproduced', 'native run (ASan+UBSan build of /repo sources) fails: %s | args: %s' % ((out.strip()[:900] + ' ... ' + out.strip()[-300:]), ' '.join(args))
